@@ -1,4 +1,4 @@
-CONSTANT MaxOps = 5
+CONSTANTS MaxOps = 5 MaxNew = 0
 INIT Init
 NEXT Next
 INVARIANTS Conserved PenaltyOK AsMinOK RelaxedOK RoundTripOK
